@@ -53,8 +53,22 @@ BIN_SWAP = {ast.Add: ast.Sub, ast.Sub: ast.Add, ast.Mult: ast.Div, ast.Div: ast.
 
 
 class Mutant:
-    def __init__(self, rel: str, func: str, lineno: int, op: str, desc: str, source: str):
+    def __init__(self, rel: str, func: str, lineno: int, op: str, desc: str, source: str, context: str = ""):
         self.rel, self.func, self.lineno, self.op, self.desc, self.source = rel, func, lineno, op, desc, source
+        self.context = context
+
+    def presumed_equivalent(self) -> Optional[str]:
+        """Classes of mutants that cannot change any of the 18 stated behaviours (reason), else None."""
+        if self.op == "drop-stmt" and any(k in self.desc for k in (".set_changed()", ".all_changed()", ".clear_classes()",
+                                                                   ".add_class(")):
+            return "bookkeeping for visualisation (changed marks / css classes): outside the 18 statements"
+        if self.context == "assert":
+            return "inside an assert statement: only the internal sanity check changes"
+        if self.context == "raise":
+            return "inside a raise statement: only the error message / exception arguments change"
+        if self.op == "swap-args" and any(self.desc.startswith(f"`{c}(") for c in ("AddExpression", "MultiplyExpression")):
+            return "operand order of a commutative operator in a freshly built node (the statements allow any order of + and *)"
+        return None
 
     @property
     def mid(self) -> str:
@@ -80,6 +94,11 @@ def generate(rel: str) -> List[Mutant]:
         if fn.name in SKIP_FUNCS or fn.name.startswith("to_math"):
             continue
         nodes = list(ast.walk(fn))
+        ctx_of: Dict[int, str] = {}
+        for a in ast.walk(fn):
+            if isinstance(a, (ast.Assert, ast.Raise)):
+                for x in ast.walk(a):
+                    ctx_of[id(x)] = "assert" if isinstance(a, ast.Assert) else "raise"
         annotations = set()
         for a in ast.walk(fn):
             for field in ("annotation", "returns"):
@@ -145,7 +164,7 @@ def generate(rel: str) -> List[Mutant]:
                     compile(new_src, rel, "exec")
                 except Exception:
                     continue
-                out.append(Mutant(rel, qual, getattr(n, "lineno", fn.lineno), op, desc, new_src))
+                out.append(Mutant(rel, qual, getattr(n, "lineno", fn.lineno), op, desc, new_src, ctx_of.get(id(n), "")))
     # de-duplicate identical sources
     seen = set()
     uniq = []
@@ -222,6 +241,7 @@ def main(argv: List[str]) -> int:
     files = list(FILE_CHECKS)
     jobs = 8
     limit = None
+    reuse = False
     i = 0
     while i < len(argv):
         if argv[i] == "--files":
@@ -233,6 +253,9 @@ def main(argv: List[str]) -> int:
         elif argv[i] == "--limit":
             limit = int(argv[i + 1])
             i += 2
+        elif argv[i] == "--reuse":
+            reuse = True
+            i += 1
         else:
             i += 1
     t0 = time.time()
@@ -243,30 +266,45 @@ def main(argv: List[str]) -> int:
             ms = ms[::max(1, len(ms) // limit)][:limit]
         mutants += ms
     print(f"{len(mutants)} mutants generated in {time.time() - t0:.0f}s", flush=True)
-    with ThreadPoolExecutor(max_workers=16) as ex:
-        alive = list(ex.map(survives_tests, mutants))
-    survivors = [m for m, a in zip(mutants, alive) if a]
+    prev_path = VERIF / "selftest" / "mutation_report.json"
+    if reuse and prev_path.exists():
+        # the mutants are generated deterministically: take the survivor set of the previous campaign (the repository's test
+        # suite and sources are unchanged) and only re-run the checks
+        prev = json.loads(prev_path.read_text())
+        keep = {(it["id"], it["edit"]) for it in prev["items"]}
+        survivors = [m for m in mutants if (m.mid, m.desc) in keep]
+        n_generated_prev = prev["generated"]
+        if n_generated_prev != len(mutants):
+            print(f"warning: {len(mutants)} mutants now, {n_generated_prev} in the previous campaign", flush=True)
+    else:
+        with ThreadPoolExecutor(max_workers=16) as ex:
+            alive = list(ex.map(survives_tests, mutants))
+        survivors = [m for m, a in zip(mutants, alive) if a]
     print(f"{len(survivors)} survive the repository's test suite ({time.time() - t0:.0f}s)", flush=True)
     inner = max(1, 16 // jobs)
     with ThreadPoolExecutor(max_workers=jobs) as ex:
         results = list(ex.map(lambda m: run_checks(m, inner), survivors))
     report = []
-    n_det = n_err = n_miss = 0
+    n_det = n_err = n_miss = n_eq = 0
     for m, r in zip(survivors, results):
         status = "detected" if any(v == 1 for v in r.values()) else ("analysis-error" if any(v not in (0, 1) for v in r.values()) else "undetected")
+        why_eq = m.presumed_equivalent()
+        if status == "undetected" and why_eq:
+            status = "presumed-equivalent"
+            n_eq += 1
         n_det += status == "detected"
         n_err += status == "analysis-error"
         n_miss += status == "undetected"
         report.append({"id": m.mid, "file": m.rel, "function": m.func, "line": m.lineno, "operator": m.op, "edit": m.desc,
-                       "checks": r, "status": status})
+                       "checks": r, "status": status, **({"reason": why_eq} if status == "presumed-equivalent" else {})})
     out = {"generated": len(mutants), "killed_by_tests": len(mutants) - len(survivors), "survivors": len(survivors),
-           "detected": n_det, "analysis_error": n_err, "undetected": n_miss, "files": files,
+           "detected": n_det, "analysis_error": n_err, "undetected": n_miss, "presumed_equivalent": n_eq, "files": files,
            "wall_s": round(time.time() - t0), "items": report}
     name = "mutation_report.json" if len(files) == len(FILE_CHECKS) else "mutation_report_partial.json"
     (VERIF / "selftest" / name).write_text(json.dumps(out, indent=1))
-    print(f"survivors {len(survivors)}: detected {n_det}, analysis-error {n_err}, undetected {n_miss} ({time.time() - t0:.0f}s)")
+    print(f"survivors {len(survivors)}: detected {n_det}, analysis-error {n_err}, presumed-equivalent {n_eq}, undetected {n_miss} ({time.time() - t0:.0f}s)")
     for it in report:
-        if it["status"] != "detected":
+        if it["status"] not in ("detected", "presumed-equivalent"):
             print(f"  {it['status']:14s} {it['id']:60s} {it['edit'][:70]}  {it['checks']}")
     return 0
 
